@@ -55,6 +55,22 @@ func runC06(c *Ctx, idx int) {
 	if !ok {
 		return
 	}
+	// every third case: the caller reuses the same Options / *url.URL for a
+	// second call on the same page; its URLs are checked instead
+	if idx%3 == 0 {
+		var cr callResult
+		if ar.Mode == "reader" {
+			cr = c.applyReader(ar.Src, opts)
+		} else {
+			cr = c.apply(parseHTML(ar.Src), opts)
+		}
+		if !c.usable(cr) {
+			return
+		}
+		ar.Res = cr.Res
+		ar.Mode += "+second-call-same-options"
+		c.Inc("second_calls_checked")
+	}
 	L := ar.G.L
 	bad := false
 	checkVal := func(val, elem, attrName, path string) {
